@@ -265,6 +265,37 @@ def run_impl(stage, lines, **kw):
 def run_model(stage, lines, **kw):
     return run_lines(DRIVER, stage, lines, **kw)
 
+# ------------------------------------------------------------------ extraction cross-check
+def coq_bytes(b):
+    return "[" + "; ".join("%d%%N" % x for x in b) + "]"
+
+def extraction_crosscheck(samples):
+    """The correspondence runs the model through extraction (ExtrOcamlBasic) and an OCaml driver.  Here the same inputs are
+    evaluated inside Coq (vm_compute on the Gallina definitions the theorems are about) and compared with what the
+    extracted driver prints, so that extraction and the driver's glue are themselves checked.
+    samples: list of (name bytes, source bytes).  Returns (n compared, list of mismatch descriptions)."""
+    work = os.path.join(BUILD, "xcheck"); os.makedirs(work, exist_ok=True)
+    v = ["From Ructe Require Import Nom Utf8 Compile UniTables Extract.", "Local Open Scope list_scope.",
+         "Definition show (o : coutcome) : list N := match o with Accepted r => 65%N :: r | Rejected d => 82%N :: d | Panicked => [80%N] | NoFuel => [70%N] end."]
+    for name, src in samples:
+        v.append("Eval vm_compute in show (compile_m %s %s)." % (coq_bytes(name), coq_bytes(src)))
+    open(os.path.join(work, "xcheck.v"), "w").write("\n".join(v) + "\n")
+    with Lock():
+        r = subprocess.run(["coqc", "-noglob", "-Q", os.path.join(COQ, "theories"), "Ructe", "xcheck.v"], cwd=work, capture_output=True, text=True, timeout=1800)
+    if r.returncode != 0:
+        return 0, ["coqc failed on the cross-check file: " + r.stderr[-400:]]
+    outs = re.findall(r"=\s*(\[[^\]]*\])\s*:\s*list N", r.stdout, re.S)
+    coq = [bytes(int(x) for x in re.findall(r"(\d+)%N", o)) for o in outs]
+    drv = run_model("compile", ["%s %s" % (hexs(n), hexs(s0)) for n, s0 in samples])
+    bad = []
+    if len(coq) != len(samples): bad.append("%d results from Coq for %d inputs" % (len(coq), len(samples)))
+    for (n, s0), c, d in zip(samples, coq, drv):
+        f = d.split(" ")
+        want = {"OK": b"A", "ERR": b"R", "PANIC": b"P", "FUEL": b"F"}.get(f[0], b"?") + (unhexs(f[1]) if len(f) > 1 else b"")
+        if c != want:
+            bad.append("source %r: vm_compute gives %r..., the extracted driver %r..." % (s0[:80], c[:60], want[:60]))
+    return len(coq), bad
+
 # ------------------------------------------------------------------ known findings
 
 def known_findings():
